@@ -350,6 +350,11 @@ Fixpoint find_index (p : str) (i : Z) (names : list str) : option str :=
   | [] => None
   | n :: names' => if str_eqb p (digits_fuel 8 i []) then Some n else find_index p (i + 1) names'
   end.
+Fixpoint unmap (p : str) (i : Z) (names : list str) : list str :=
+  match names with
+  | [] => []
+  | n :: names' => (if str_eqb p (digits_fuel 8 i []) then [] else n) :: unmap p (i + 1) names'
+  end.
 Definition getpx (s : state) (l : nat) (p : str) : val :=
   match get_obj s l with
   | Some o =>
@@ -602,7 +607,14 @@ Definition step (t : task) (s : state) : R :=
         bindv (self (TExpr c o) s) (fun s1 vo =>
           match vo with
           | WRef l => match get_obj s1 l with
-                      | Some ob => match o_kind ob with KObj => okv (delp s1 l p) (WBool true) | _ => Decline end
+                      | Some ob => match o_kind ob with
+                                   | KObj => okv (delp s1 l p) (WBool true)
+                                   | KArgs e names =>
+                                       (* 10.6 [[Delete]]: the property goes, and so does its parameter alias *)
+                                       let names' := unmap p 0 names in
+                                       okv (set_obj s1 l (mkobj (alist_del p (o_props ob)) (o_proto ob) (KArgs e names'))) (WBool true)
+                                   | _ => Decline
+                                   end
                       | None => Decline
                       end
           | WUndef | WNull => type_error s1
